@@ -70,6 +70,10 @@ pub fn generated_groups(quick: bool) -> Vec<(String, Vec<String>)> {
             v.push(print_default(&p).text);
         }
         v.push(print_default(&typed_index_program()).text);
+        v.push(print_default(&implicit_index_program()).text);
+        for (p, _) in redim_programs().into_iter().chain(redim_in_sub_programs()).chain(bypassed_dim_programs()) {
+            v.push(print_default(&p).text);
+        }
         groups.push((format!("generated array / record / fixed-string programs (<= {} dimensions)", dims), v));
     }
     // C05
